@@ -784,6 +784,24 @@ def fam_range_nth(cfg, tier, rng):
                         out.append(pre + ["splice e 0 i%d x%d %s drop box 1 - 1" % (s, e, p)] + post)
     return out
 
+def fam_userlazy(cfg, tier, rng):
+    """C09/C01: lazy clones (depth 1..3) of a USER-DEFINED cloneable value whose `Type` is the concrete element
+    type - the only lazily cloned source whose static type is known - consumed by push / insert at every index
+    (also out of range and into a full fixed vector), with and without a panicking Clone."""
+    L = 3 if tier == "quick" else 4
+    out = []
+    for n in range(0, max_len(cfg, L) + 1):
+        pre = prefix(cfg, [n, 0])
+        post = usable_after(cfg, [0])
+        for d in (1, 2, 3):
+            out.append(pre + ["push e 0 ulz:%d" % d, "push e 0 ulz:%d" % d] + post)
+            for i in range(0, n + 2):
+                out.append(pre + ["insert e 0 %d ulz:%d" % (i, d)] + post)
+        out.append(pre + ["fuse=0 push e 0 ulz:1", "push e 0 ulz:2"] + post)
+        for i in range(0, n + 1):
+            out.append(pre + ["fuse=0 insert e 0 %d ulz:1" % i] + post)
+    return out
+
 def fam_placement(cfg, tier, rng):
     """C12: storage pointer alignment for every admissible placement of the vector object."""
     if cfg["be"].split(":")[0] == "reloc":
@@ -797,6 +815,7 @@ FAMILIES = {
     "iter_clone": fam_iter_clone,
     "iter_nth": fam_iter_nth,
     "range_nth": fam_range_nth,
+    "userlazy": fam_userlazy,
     "cursor_max": fam_cursor_max,
     "placement": fam_placement,
     "fuse": fam_fuse,
